@@ -1704,3 +1704,39 @@ def r16_7(rep):
                 expect = COMPLEX_SPELLING.get(v, want + " complex") if is_complex else want
                 rep.check(text == expect, "c-name:%s::%s%s" % (short, v, ":complex" if is_complex else ""),
                           "%s::%s is written as `%s` (C spelling: `%s`)" % (short, v, text, expect), b.loc(a["body"]))
+
+
+@RULES.rule("R16.8", "options the wrapper file is assembled from are still there when it is assembled", floor=2)
+def r16_8(rep):
+    """`serialize_items` pastes `options.input_header_contents` into the wrapper source so that the wrappers see the
+    declarations of headers given as text; if `Builder::generate` has moved the contents out of the options before codegen,
+    the wrapper source for a `header_contents` input has no declarations and does not compile."""
+    prog = rep.prog
+    OPT = "options::BindgenOptions"
+    si = rep.need(prog.fn("codegen::utils::serialize_items"), "utils::serialize_items")
+    used = set()
+    for n in si.walk():
+        if n["k"] == "Field" and n.get("adt") == OPT:
+            used.add(n["f"])
+    rep.need(used, "option fields read by serialize_items")
+    emptied = {}
+    for path in ("Builder::generate", "Bindings::generate"):
+        b = prog.fn(path)
+        if b is None:
+            continue
+        for c in b.calls():
+            callee = c.get("callee") or ""
+            if callee in ("std::mem::take", "std::mem::replace") or (c["k"] == "MCall" and c["name"] in ("drain", "clear", "take")):
+                tgt = c["args"][0] if c["k"] == "Call" else c["recv"]
+                t = strip(tgt)
+                while t.get("k") in ("AddrOf",):
+                    t = strip(t["e"])
+                if t.get("k") == "Field" and t.get("adt") == OPT:
+                    emptied[t["f"]] = (b, c)
+    for f in sorted(used):
+        if f in emptied:
+            b, c = emptied[f]
+            rep.bad("option-emptied-before-use:%s@%s" % (f, b.path), "`options.%s` is moved out in %s before code generation, but "
+                    "serialize_items still reads it to build the wrapper file (it is always empty there)" % (f, b.path), b.loc(c))
+        else:
+            rep.ok("option-intact:%s" % f)
